@@ -466,12 +466,14 @@ func (self *Compiler) compileStructBody(p *ir.Program, sp int, vt reflect.Type) 
 			}
 		}
 
-		/* index to the field */
+		/* index to the field, a field reached through an embedded pointer is addressable */
+		pv := self.pv
 		for _, o = range fv.Path {
 			if p.Int(ir.OP_index, int(o.Size)); o.Kind == resolver.F_deref {
 				s = append(s, p.PC())
 				p.Add(ir.OP_is_nil)
 				p.Add(ir.OP_deref)
+				pv = true
 			}
 		}
 
@@ -505,9 +507,12 @@ func (self *Compiler) compileStructBody(p *ir.Program, sp int, vt reflect.Type) 
 
 		/* check for "stringnize" option */
 		if (fv.Opts & resolver.F_stringize) == 0 {
-			self.compileOne(p, sp+1, ft, self.pv)
+			self.compileOne(p, sp+1, ft, pv)
 		} else {
+			pr := self.pv
+			self.pv = pv
 			self.compileStructFieldStr(p, sp+1, ft)
+			self.pv = pr
 		}
 
 		/* patch the skipping jumps and reload the struct pointer */
